@@ -97,7 +97,7 @@ func checkC15(c *Ctx) error {
 		add("Diagnostics", 1, b, 0, 0, 0)
 	}
 	n2 := c15Bodies(2)
-	per2, n3count, few := 2, 40, 1
+	per2, n3count, few := 1, 30, 1
 	if !c.Quick() {
 		per2, n3count, few = 12, 600, 0
 	}
